@@ -92,7 +92,8 @@ def shard(args):
         axes = [None] + list(range(len(shape))) + [-1]
         for axis in axes:
             for keepdims in (False, True):
-                for spelled, f in (("numpy.sum", lambda: np.sum(v, axis=axis, keepdims=keepdims)), (".sum()", lambda: v.sum(axis=axis, keepdims=keepdims))):
+                for spelled, f in (("numpy.sum", lambda: np.sum(v, axis=axis, keepdims=keepdims)), (".sum()", lambda: v.sum(axis=axis, keepdims=keepdims)),
+                                   ("numpy.sum(positional-axis)", lambda: np.sum(v, axis, keepdims=keepdims)), (".sum(positional-axis)", lambda: v.sum(axis, keepdims=keepdims))):
                     tag = f"{spelled}(axis={axis},keepdims={keepdims}){tag0}|{layout}]"
                     snap = AR.snapshot(v)
                     try:
@@ -126,6 +127,14 @@ def shard(args):
                 objs = [AR.obj_of(system, mom, {n: float(cols[key(n)][i]) for n in AR.names_of(system)}) for i in range(4)]
                 exp = sum(1 for o in objs if any(float(getattr(o, c)) != 0.0 for c in names))
             F.check("C17", f"count_nonzero{tag0}|np(4)]", int(cn) == exp, dict(got=int(cn), expected=exp))
+            nz_flags = [any(float(getattr(o, c)) != 0.0 for c in names) for o in objs]
+            v22 = vz.reshape(2, 2)
+            ref22 = np.array(nz_flags).reshape(2, 2)
+            for ax in (0, 1, -1):
+                for form, g in (("keyword", lambda: np.count_nonzero(v22, axis=ax)), ("positional", lambda: np.count_nonzero(v22, ax))):
+                    with np.errstate(all="ignore"):
+                        got = np.asarray(g())
+                    F.check("C17", f"count_nonzero(axis={ax},{form}){tag0}|np(2,2)]", got.tolist() == np.count_nonzero(ref22, axis=ax).tolist(), dict(got=got.tolist()))
         except Exception as e:
             F.check("C17", f"count_nonzero{tag0}|np(4)]", False, f"{type(e).__name__}: {str(e)[:150]}")
     # ---------------- Awkward
